@@ -103,6 +103,7 @@ func RunWorker(a WorkerArgs) int {
 		defer hashW.Flush()
 	}
 	inflight := filepath.Join(a.OutDir, fmt.Sprintf("w%d.inflight", a.K))
+	racing := filepath.Join(a.OutDir, fmt.Sprintf("w%d.racing", a.K))
 	smallest := -1
 	var smallestRaw json.RawMessage
 	it := 0
@@ -121,6 +122,11 @@ func RunWorker(a WorkerArgs) int {
 		}
 		if d, ok := sc.(Inflight); ok && d.Dangerous() {
 			_ = os.WriteFile(inflight, raw, 0o644)
+		}
+		if RaceEnabled {
+			// a race report aborts the process; persist the scenario first so
+			// the parent can attribute the report
+			_ = os.WriteFile(racing, raw, 0o644)
 		}
 		log := NewLog(false)
 		res, err := SafeExecute(p, sc, a.Phase, log)
